@@ -36,7 +36,7 @@ META = {}
 META['C02'] = dict(
     engine='rapid-inpkg',
     design_ref='DESIGN.md section 4, C02',
-    technique='property-based testing (rapid): generated (matcher, term, line, direction, slab, representation) cases against a witness-validity predicate and an exhaustive witness search',
+    technique='property-based testing (rapid): generated (matcher, term, line, direction, slab, representation) cases against a witness-validity predicate and an exhaustive witness search; the same predicate on ranges and positions reported through --nth scopes; generated start-up queries of 300-4000 characters against the real binary (found, drawn, alive)',
     level_text='Exploration: hundreds of thousands (quick) to millions (thorough) of generated calls of all seven matchers, each checked in both directions '
                '(reported match => valid witness; reported non-match => the oracle finds no witness). No absence claim beyond the explored cases.',
     level_note='Trusts the independent oracle in harness/oracle (subsequence / occurrence search, case+accent folding with a snapshot of the accent table), '
@@ -68,7 +68,7 @@ META['C01'] = dict(
 META['C04'] = dict(
     engine='rapid-lib',
     design_ref='DESIGN.md section 4, C04',
-    technique='property-based testing (rapid) against a reference ranking: independent documented score + tiebreak keys, stable global sort; input-order oracle for --no-sort / empty / negation-only queries',
+    technique='property-based testing (rapid) against a reference ranking: independent documented score + tiebreak keys, stable global sort; input-order oracle for --no-sort / empty / negation-only queries; generated query / toggle-sort histories through the matcher loop with its per-query lists',
     level_text='Exploration: generated lists with forced score/tiebreak collisions across 0, 1 and several chunks, all filter code paths (streaming, sorted, --tac, --sync).',
     level_note='Library-level order oracle covers positive fuzzy(v2)/prefix/suffix/equal terms with tiebreaks length/index; other criteria via in-package merger check and the C05 sub-list relation.')
 
@@ -103,14 +103,14 @@ META['C11'] = dict(
 META['C12'] = dict(
     engine='rapid-inpkg',
     design_ref='DESIGN.md section 4, C12',
-    technique='property-based round-trip testing (rapid) through the real /bin/sh (dash) and bash: expansion -> shell -> argv compared with the expected words, canary file for injected commands',
+    technique='property-based round-trip testing (rapid) through the real /bin/sh (dash) and bash: expansion -> shell -> argv compared with the expected words, canary file for injected commands; the real tmux re-launch code with stand-ins for tmux and fzf (argument vector and environment as /bin/sh evaluates the generated script)',
     level_text='Exploration: thousands (quick) to ~100k (thorough) templates x hostile item/query texts, each evaluated by two real shells.',
     level_note='Trusts dash and bash as the POSIX-shell oracles; fish is modelled, not run.')
 
 META['C17'] = dict(
     engine='rapid-inpkg',
     design_ref='DESIGN.md section 4, C17',
-    technique='property-based testing (rapid): grammar-generated bind strings (round-trip against the AST), generated argument vectors (totality, last-wins, env/file layering differential)',
+    technique='property-based testing (rapid): grammar-generated bind strings (round-trip against the AST), generated argument vectors (totality, last-wins, env/file layering differential), documented rules between options and attached optional values against a model',
     level_text='Exploration: generated bind ASTs through 17 delimiter forms, generated argv over the scraped option vocabulary; exit status/stderr of rejected vectors is checked at process level.',
     level_note='Trusts the key-name -> event table for the 15 keys used and the documented restriction on closing delimiters inside arguments.')
 
@@ -145,7 +145,7 @@ META['C13'] = dict(
 META['C19'] = dict(
     engine='rapid-inpkg',
     design_ref='DESIGN.md section 4, C19',
-    technique='property-based testing (rapid): generated directory-tree ASTs materialised on disk, walker output compared as multisets with a walk model over the AST',
+    technique='property-based testing (rapid): generated directory-tree ASTs materialised on disk, walker output (in-package, interactive sessions and --filter fed by the walker) compared as multisets with a walk model over the AST',
     level_text='Exploration: thousands of generated trees x all 12 walker option combinations x skip lists x root spellings.',
     level_note='Trusts harness/oracle/walk.go; three under-specified listings are accepted either way (see assumptions in the evidence).')
 
